@@ -209,6 +209,7 @@ func runC03Corpus(c *Ctx, phase string) {
 		c.Floor("slice_cases", 10)
 		c.Floor("valid_term_pairs", 20000)
 		c.Floor("valid_trees", 1000)
+		c.Floor("long_allowed_lists", 1000)
 	}
 	// (1) mutations of valid expressions
 	nValid := c.Pick(400, 6000)
@@ -373,6 +374,44 @@ func runC03Corpus(c *Ctx, phase string) {
 			doCall(c, CallCase{Fn: "ExtractLicenses", Expr: ev.QS(text)})
 			c.Inc("valid_trees")
 			c.Distinct(gen.HashStr("tree", text))
+		}
+	}
+	// (6) long allowed lists (code paths that switch strategy above a size threshold: indexes, binary search, maps)
+	{
+		nLong := c.Pick(1200, 12000)
+		edge := []string{"0BSD", "zlib-acknowledgement", "ZPL-2.1", "Zlib", "AAL", "xpp", "LicenseRef-zzzz", "LicenseRef-0", "DocumentRef-zz:LicenseRef-zz", "wxWindows", "GPL-3.0-or-later", "MIT+", "X11 WITH x11vnc-openssl-exception"}
+		for i := 0; i < nLong; i++ {
+			if !c.Mine(i) {
+				continue
+			}
+			r := gen.NewRand(c.Seed, 0xC039, uint64(i))
+			n := 9 + r.Intn(40)
+			if r.Chance(1, 3) {
+				n = 30 + r.Intn(120)
+			}
+			allowed := make([]string, 0, n)
+			for len(allowed) < n {
+				t := u.RandomTerm(r)
+				if r.Chance(1, 2) {
+					t = gen.Term{ID: r.Pick(u.Active)}
+				}
+				allowed = append(allowed, t.Text())
+			}
+			var expr string
+			switch r.Intn(4) {
+			case 0:
+				expr = r.Pick(edge)
+			case 1:
+				expr = allowed[r.Intn(len(allowed))]
+			case 2:
+				expr = u.RandomTerm(r).Text()
+			default:
+				expr = string(genRandomTree(c, "C03L", i, 128).Text)
+			}
+			doCall(c, CallCase{Fn: "Satisfies", Expr: ev.QS(expr), List: ev.QSs(allowed)})
+			doCall(c, CallCase{Fn: "ValidateLicenses", List: ev.QSs(allowed)})
+			c.Inc("long_allowed_lists")
+			c.Max("longest_allowed_list", int64(n))
 		}
 	}
 	// (4) slices
